@@ -41,7 +41,7 @@ CONF = {
                    'satisfying machine_ok: C12_no_panic (tcpassembly; reassembly after the fix), C12_one_entry (one entry per key and '
                    'its reverse, map/free-list consistency), C12_mutex + C12_stream_owner_unique + C12_lock_owner (callbacks only in a '
                    'step that takes the free lock of the one object owning the stream), C12_progress (no deadlock; enabled threads '
-                   'step), C12_inorder_order (an assembler processes its packets in program order), C12_complete_once_partial (never twice), C12_flush_skips_closed (tcpassembly: a flusher - FlushAll or the age-based FlushWithOptions - that locks a connection closed since its snapshot changes nothing); C12_lockset_without_recycling and C12_inorder_without_recycling prove the two refuted statements for the hypothetical configuration in which remove() does not recycle the object (so recycling is their only cause). C12_terminates / C12_runs_finite / C12_complete_run (a lexicographic measure decreases on every step of every configuration: all runs are finite without a fairness assumption and every maximal run ends all-done), C12_complete_once_without_recycling (exactly once for every kept stream once the pool is empty; with recycling only the at-most-once half holds and the refutations stay), C12_one_entry_checker / C12_one_entry_chk (the boolean chk_one_entry the runner evaluates is the theorem predicate), C12_one_entry_age_free / C12_complete_once_partial_age_free / C12_no_second_remove_without_age_flush (for programs of packets and FlushAll only, the pool theorems hold for the reassembly code as it is; trail_cfg g = false is needed exactly for schedules in which a thread reaches the second remove, i.e. the known finding C12-reassembly-second-remove). Refuted on the faithful model with explicit schedules, each '
+                   'step), C12_inorder_order (an assembler processes its packets in program order), C12_complete_once_partial (never twice), C12_flush_skips_closed (tcpassembly: a flusher - FlushAll or the age-based FlushWithOptions - that locks a connection closed since its snapshot changes nothing); C12_lockset_without_recycling and C12_inorder_without_recycling prove the two refuted statements for the hypothetical configuration in which remove() does not recycle the object (so recycling is their only cause). C12_terminates / C12_runs_finite / C12_complete_run (a lexicographic measure decreases on every step of every configuration: all runs are finite without a fairness assumption and every maximal run ends all-done), C12_complete_once_without_recycling (exactly once for every kept stream once the pool is empty; with recycling only the at-most-once half holds and the refutations stay), C12_one_entry_checker / C12_one_entry_chk (the boolean chk_one_entry the runner evaluates is the theorem predicate), C12_one_entry_age_free / C12_complete_once_partial_age_free / C12_no_second_remove_without_age_flush (for programs of packets and FlushAll only, the pool theorems hold for the reassembly code as it is; trail_cfg g = false is needed exactly for schedules in which a thread reaches the second remove, i.e. the known finding C12-reassembly-second-remove). C12_flushall_empties_pool (+ _tcpassembly, _reassembly: the code as it stands, recycling included - after a FlushAll called while every other assembler is quiescent the call returns and the pool map is empty; reassembly for programs without age-based flush), C12_complete_once_after_flushall (without recycling: that FlushAll leaves every stream ever entered in the pool completed exactly once; the hypotheses g_recycle = false and trail_cfg = false cannot be dropped, witnesses C12_complete_once_refuted_*). Extraction cross-check: 11 corpus cases re-evaluated by vm_compute against a total digest of the final state and log (coq/Model/C12Digest.v). Refuted on the faithful model with explicit schedules, each '
                    'replayed on the real code (corpus/C12): C12_no_panic_refuted (unchanged reassembly: FIXME panic, fixed), '
                    'C12_lockset_refuted_*, C12_inorder_refuted_* (stale pointer to a closed, recycled connection object: data reaches '
                    'the wrong stream, reset races with the reader), C12_complete_once_refuted_* (a recycled object that lost the insert '
